@@ -392,6 +392,35 @@ fn sweep_scenario(idx: u64, specs: &[NodeSpec], depth: u32) -> Scenario {
     Scenario { property: PROP.into(), stage: "sweep".into(), nodes: vec![spec], ops, workers: 0 }
 }
 
+/// sweep-mega (fixed corpus): every O(1)-per-call kind with a window around/beyond 2^16 slots: a history of
+/// 2n+1 ticks (the ring wrapped), reset, a continuation of n+3 ticks against a fresh twin
+fn mega_specs(periods: &[usize]) -> Vec<NodeSpec> {
+    let mut v = vec![];
+    for &k in ALL_KINDS.iter() {
+        if !gen::cheap_per_tick(k) || k.n_periods() == 0 {
+            continue;
+        }
+        for &p in periods {
+            let mode = if k.has_scalar() { Mode::Scalar } else { Mode::Bar };
+            v.push(NodeSpec { kind: k, params: Params::new(p, 3, 2, 2.0), mode, dflt: false });
+        }
+    }
+    v
+}
+
+fn mega_scenario(idx: u64, specs: &[NodeSpec]) -> Scenario {
+    let spec = specs[idx as usize];
+    let n = spec.params.p1 as u64;
+    let g = world::StreamDesc { regime: [world::Regime::Walk, world::Regime::Saw, world::Regime::Few][(idx % 3) as usize], level: crate::sut::Fx(40.0), saw: 7, seed: idx, neg: false };
+    let g2 = world::StreamDesc { regime: world::Regime::Trend, level: crate::sut::Fx(900.0), saw: 3, seed: idx + 1000, neg: false };
+    let ops = vec![
+        Op::Gen { n: 0, g, skip: 0, len: 2 * n + 1, fault: None, every: 0, reset_every: 0, clone_every: 0 },
+        Op::Reset { n: 0 },
+        Op::Gen { n: 0, g: g2, skip: 0, len: n + 3, fault: None, every: 0, reset_every: 0, clone_every: 0 },
+    ];
+    Scenario { property: PROP.into(), stage: "sweep-mega".into(), nodes: vec![spec], ops, workers: 0 }
+}
+
 pub fn run(tier: Tier) -> i32 {
     let c = report::ctx();
     let start = Instant::now();
@@ -408,12 +437,21 @@ pub fn run(tier: Tier) -> i32 {
     let sweep_runs = if gen::skip_fixed() { 1 } else { specs.len() as u64 * n_hist(depth) * NCONT };
     let seeded_runs = gen::scaled(seeded_runs);
     let sweep = run_stage("sweep", sweep_runs, wall_cap, &mut total, &|i| sweep_scenario(i, &specs, depth), &exec_guarded, &[4321], 32);
-    let seeded = if sweep.found.is_none() {
+    let mega_periods: &[usize] = match tier {
+        Tier::Quick => &[65_535, 65_536, 65_537],
+        Tier::Thorough => &gen::MEGA_PERIODS,
+    };
+    let mspecs = mega_specs(mega_periods);
+    let mega = if sweep.found.is_none() && !gen::skip_fixed() { Some(run_stage("sweep-mega", mspecs.len() as u64, wall_cap, &mut total, &|i| mega_scenario(i, &mspecs), &exec_guarded, &[], 3)) } else { None };
+    let seeded = if sweep.found.is_none() && mega.as_ref().map_or(true, |m| m.found.is_none()) {
         Some(run_stage("seeded", seeded_runs, wall_cap, &mut total, &|i| generate(&mut Rng::new(run_seed(c.seed, PROP, "seeded", i)), tier), &exec_guarded, &[0, 1], 24))
     } else {
         None
     };
     let mut stages = vec![&sweep];
+    if let Some(s) = &mega {
+        stages.push(s);
+    }
     if let Some(s) = &seeded {
         stages.push(s);
     }
@@ -435,6 +473,7 @@ pub fn run(tier: Tier) -> i32 {
             violations,
             exhaustive: false,
             extra: json!({"sweep": {"specs": specs.len(), "depth": depth, "stage": sweep.json(), "exhaustive_within_bounds": !sweep.truncated},
+                           "sweep_mega": {"specs": mspecs.len(), "periods": mega_periods, "stage": mega.as_ref().map(|s| s.json())},
                            "seeded": seeded.as_ref().map(|s| s.json()),
                            "dead_fault_kinds": dead}),
         },
